@@ -256,11 +256,15 @@ class Ctx:
                         seconds=o.get("seconds"), smt2_bytes=len(o["smt2"])) for o in real[:5]]
         for b in self.bounded_parts[:3]:
             samples.extend(b["samples"][:2])
+        nobl = {}
+        for o in discharged:
+            nobl[o["function"]] = nobl.get(o["function"], 0) + 1
         cov = dict(
             obligations=len(real), discharged=len(discharged),
             checker_cmd="bin/check %s --tier %s" % (self.pid, self.tier),
             trusted_base=sorted(set(self.trusted)),
-            functions_under_contract=self.functions,
+            functions_under_contract={q: dict(v, obligations=nobl.get(q, 0)) for q, v in self.functions.items() if nobl.get(q)},
+            functions_bounded_only={q: v["sha256_16"] for q, v in self.functions.items() if not nobl.get(q)},
             discharged_by_backend=by_backend,
             backends=solve.backend_versions(),
             solver_seconds=round(sum(o.get("seconds") or 0 for o in self.obligations), 3),
